@@ -232,7 +232,11 @@ def _parse_unauthorized(content: bytes) -> AuthenticationError:
 
     """
     payload: object = None
-    with contextlib.suppress(ValueError):
+    # RecursionError is not a ValueError: json.loads raises it for a body
+    # nested deeper than the interpreter will recurse (b"[" * 200_000 from a
+    # hostile or broken intermediary). Such a body is not the envelope either,
+    # so it takes the non-JSON path below instead of escaping the error path.
+    with contextlib.suppress(ValueError, RecursionError):
         payload = json.loads(content)
     if isinstance(payload, dict):
         raw_reason = str(payload.get("reason", ""))
